@@ -335,11 +335,41 @@ const TEXT_TEMPLATES: &[(&str, &str, &[(&str, &str)])] = &[
     ),
 ];
 
+/// wide types: N annotated parameters, an N-tuple local, an N-tuple result, a tuple of tuples and a list of
+/// N-tuples - five sites each, for N around the usual thresholds
+fn wide_templates() -> Vec<(String, String, Vec<(String, String)>)> {
+    let mut v = Vec::new();
+    for n in [2usize, 8, 9, 16, 17, 31, 32, 33, 34, 63, 64, 65] {
+        let ints = |k: usize| vec!["int"; k].join(", ");
+        let vals = |k: usize, d: usize| (0..k).map(|i| format!("{}", i * 3 + d)).collect::<Vec<_>>().join(", ");
+        let side = (n as f64).sqrt().ceil() as usize + 1;
+        let mut t = String::from("print: fn *X -> void : external\n");
+        t.push_str(&format!(
+            "sum :: fn {{{{{}||{}}}}} -> int do\n    acc := 0\n{}    acc\nend\n",
+            (0..n).map(|i| format!("p{}: int", i)).collect::<Vec<_>>().join(", "),
+            (0..n).map(|i| format!("p{}", i)).collect::<Vec<_>>().join(", "),
+            (0..n).map(|i| format!("    acc += p{} * {}\n", i, i + 1)).collect::<String>()
+        ));
+        t.push_str(&format!("mk :: fn ->{{{{ ({},)||}}}}\n    ({},)\nend\n", ints(n), vals(n, 1)));
+        t.push_str("start :: fn do\n");
+        t.push_str(&format!("    t{{{{: ({},) = || := }}}}({},)\n", ints(n), vals(n, 1)));
+        let row_t = format!("({},)", ints(side));
+        let row_v = |d: usize| format!("({},)", vals(side, d));
+        t.push_str(&format!("    g{{{{: ({},) = || := }}}}({},)\n", vec![row_t.clone(); side].join(", "), (0..side).map(|d| row_v(d)).collect::<Vec<_>>().join(", ")));
+        t.push_str(&format!("    l{{{{: [({},)] = || := }}}}[({},), ({},)]\n", ints(n), vals(n, 1), vals(n, 2)));
+        t.push_str(&format!("    print(sum({}))\n    print(t == mk())\n    print(t[{}])\n    print(g[{}][{}])\n    print(l == [t, t])\n    print(l == [t, ({},)])\nend\n", vals(n, 1), n - 1, side - 1, side - 1, vals(n, 2)));
+        v.push((format!("wide-types-{}", n), t, Vec::new()));
+    }
+    v
+}
+
 fn check_text_templates(acc: &mut Stats) {
-    for (name, tpl, extra) in TEXT_TEMPLATES {
+    let mut templates: Vec<(String, String, Vec<(String, String)>)> = TEXT_TEMPLATES.iter().map(|(n, t, e)| (n.to_string(), t.to_string(), e.iter().map(|(a, b)| (a.to_string(), b.to_string())).collect())).collect();
+    templates.extend(wide_templates());
+    for (name, tpl, extra) in templates.iter() {
         // split into literal pieces and sites
         let mut pieces: Vec<(String, Option<(String, String)>)> = Vec::new();
-        let mut rest = *tpl;
+        let mut rest: &str = tpl.as_str();
         while let Some(p) = rest.find("{{") {
             let q = rest[p..].find("}}").expect("site end") + p;
             let inner = &rest[p + 2..q];
